@@ -802,18 +802,8 @@ func mfAlignCSS(text []byte, crs []linker.VerifMetaCR, p *mfProject, bundle bool
 		return codes, head, nbc0, text[pos+t:], ""
 	}
 
-	if minify {
-		prev := -1
-		for i, cr := range crs {
-			if cr.SourceIndex < 0 {
-				continue
-			}
-			if prev >= 0 && cssNumber(crs[prev]) == cssNumber(cr) {
-				return nil, nil, false, nil, "same-file-twice-in-a-row"
-			}
-			prev = i
-		}
-	}
+	// (When a file is in a minified chunk twice in a row, all its rules are given to the first copy: the text is the
+	// same and, since the metafile has one entry per input with the sum of its copies, so is the count.)
 	cur := 0
 	takeItem := func() {
 		cur = mfCSSNextItem(rest, cur)
